@@ -139,6 +139,13 @@ def stepF (st : St) (now : Nat) (dbOK : Bool) : Op → Obs × St
   | .logout tok => (.done, logoutF st tok dbOK)
   | .restart => (.done, restart st now)
 
+/-- The model at a code level (`fix`: the horizon repair) with fallible writes. -/
+def stepFX (fix : Bool) (st : St) (now : Nat) (dbOK : Bool) : Op → Obs × St
+  | .login req good user => let r := handleLoginF st now req good user dbOK; (.login r.1, r.2)
+  | .request tok => let r := checkSessionFX fix st now tok dbOK; (.auth (r.1 == .ok), r.2)
+  | .logout tok => (.done, logoutF st tok dbOK)
+  | .restart => (.done, restartX fix st now)
+
 /-- A timed history: operations separated by clock advances. -/
 inductive Ev where
   | op (o : Op)
